@@ -147,6 +147,7 @@ class SelectionGraphBuilder:
 
         # TODO: fix this total mess with vreg, block and chains:
         self.current_block = None
+        self.cjump_operands = None
 
         # Create maps for global variables:
         for variable in itertools.chain(
@@ -205,7 +206,7 @@ class SelectionGraphBuilder:
         for instruction in ir_block:
             # In case of last statement, first perform phi-lifting:
             if instruction.is_terminator:
-                self.copy_phis_of_successors(ir_block)
+                self.copy_phis_of_successors(ir_block, instruction)
 
             # Dispatch the handler depending on type:
             self.f_map[type(instruction)](self, instruction)
@@ -273,8 +274,13 @@ class SelectionGraphBuilder:
 
     def do_c_jump(self, node):
         """Process conditional jump into dag"""
-        lhs = self.get_value(node.a)
-        rhs = self.get_value(node.b)
+        if self.cjump_operands:
+            # Use the copies made before the phi registers were updated:
+            lhs, rhs = self.cjump_operands
+            self.cjump_operands = None
+        else:
+            lhs = self.get_value(node.a)
+            rhs = self.get_value(node.b)
         assert node.a.ty is node.b.ty
         cond = node.cond
         sgnode = self.new_node("CJMP", node.a.ty, lhs, rhs)
@@ -574,7 +580,7 @@ class SelectionGraphBuilder:
         self.add_map(node, output)
         self.debug_db.map(node, vreg)
 
-    def copy_phis_of_successors(self, ir_block):
+    def copy_phis_of_successors(self, ir_block, terminator):
         """When a terminator instruction is encountered, handle the copy
         of phi values into the expected virtual register"""
         # Copy values to phi nodes in other blocks:
@@ -590,6 +596,27 @@ class SelectionGraphBuilder:
                 sgnode = self.new_node("MOV", phi.ty, val, value=vreg1)
                 self.chain(sgnode)
                 val_map[from_val] = vreg1
+
+        # The operands of a conditional jump are read by the jump
+        # instruction at the very end of the block, after the phi registers
+        # are updated below. When such an operand depends on a phi of a
+        # successor (a loop), it would see the value of the next iteration.
+        # So take a copy of the operands now.
+        self.cjump_operands = None
+        if val_map and isinstance(terminator, ir.CJump):
+            self.cjump_operands = []
+            for operand in (terminator.a, terminator.b):
+                val = self.get_value(operand)
+                if not isinstance(operand, ir.Const):
+                    vreg2 = self.new_vreg(operand.ty)
+                    sgnode = self.new_node(
+                        "MOV", operand.ty, val, value=vreg2
+                    )
+                    self.chain(sgnode)
+                    sgnode2 = self.new_node("REG", operand.ty, value=vreg2)
+                    val = sgnode2.new_output(vreg2.name)
+                    val.vreg = vreg2
+                self.cjump_operands.append(val)
 
         # Step 2: copy the temporary value to the phi register:
         for succ_block in ir_block.successors:
